@@ -150,6 +150,7 @@ def format_outcome(
     elif isinstance(out, int):
         return format_outcome(str(bin(out))[2:], out_len)
     elif isinstance(out, List):
+        out = list(out)  # the padding below must not extend the caller's list
         if out_len is None:
             out_len = len(out)
 
